@@ -223,6 +223,7 @@ func execC10(spec *RunSpec) *Result {
 	}
 	res.addStat("cases", int64(len(spec.Ops)))
 	res.addStat("steps", rep.Steps)
+	res.addStat("clock_span_ns", rep.ClockSpanNs)
 	res.addStat("pool_reused", rep.PoolReused)
 	res.addStat("pool_gets", rep.PoolGets)
 	res.addStat("map_ranges", rep.MapRanges)
